@@ -1,6 +1,7 @@
 package ir
 
 import (
+	"strings"
 	"fmt"
 	"go/constant"
 	"go/token"
@@ -247,7 +248,21 @@ func (b *Builder) term(v ssa.Value) *Term {
 		for _, bd := range x.Bindings {
 			args = append(args, b.Term(bd))
 		}
-		return &Term{Op: OClosure, Str: x.Fn.String(), Args: args}
+		t := &Term{Op: OClosure, Str: x.Fn.String(), Args: args}
+		// a method value x.M: the wrapper only calls M on the bound receiver; remember M, so that a call through
+		// the value is the static call (DynCall)
+		if fn, ok := x.Fn.(*ssa.Function); ok && strings.HasPrefix(fn.Synthetic, "bound method wrapper") && len(x.Bindings) == 1 {
+			for _, blk := range fn.Blocks {
+				for _, in := range blk.Instrs {
+					if c, ok := in.(*ssa.Call); ok {
+						if callee := c.Call.StaticCallee(); callee != nil && callee.Object() != nil {
+							t.Obj = callee.Object()
+						}
+					}
+				}
+			}
+		}
+		return t
 	case *ssa.Range:
 		return &Term{Op: ORange, Args: []*Term{b.Term(x.X)}}
 	case *ssa.Next:
@@ -293,7 +308,7 @@ func (b *Builder) call(x *ssa.Call) *Term {
 	}
 	callee := cc.StaticCallee()
 	if callee == nil {
-		return &Term{Op: "dyncall", Args: append([]*Term{b.Term(cc.Value)}, args...), Pos: x.Pos()}
+		return DynCall(b.Term(cc.Value), args, x.Pos())
 	}
 	if b.InlineOK != nil && b.InlineOK(callee) {
 		return &Term{Op: OInline, Str: callee.String(), Obj: callee.Object(), Args: args, Pos: x.Pos(), N: b.id(x)}
